@@ -89,6 +89,36 @@ def prefixes(name, tier):
     return [[['ADD', a] for a in w] for w in rep[:3 if tier == 'quick' else 12]]
 
 
+def attribute_reads(name):
+    """e.attr must return the stored value, also when that value is falsy (0, 0.0, ''), and None only when nothing is stored"""
+    from .. import lex
+    found = []
+    tn, c, st = lib.type_of(name)
+    n = 0
+    for a in (c['attrs'] if c else []):
+        if ':' in a['name'] or a['name'] == 'name' or a.get('fixed'):
+            continue
+        L = lex.Lex(refmodel.attr_type(lib.MODEL, a))
+        py = docs.py_attr(a['name'])
+        for v in (0, 0.0, '', lib.sample_for(refmodel.attr_type(lib.MODEL, a))):
+            if v is None or not L.valid_text(docs.render_value(v), False):
+                continue
+            with lib.Capture():
+                try:
+                    e = lib.make(name)
+                    setattr(e, py, v)
+                    got = getattr(e, py)
+                except Exception:
+                    continue
+            if got is None or got != v:
+                found.append(('shortcut-read-differs', 'attribute %s: stored %r, e.%s reads %r' % (a['name'], v, py, got)))
+                break
+        n += 1
+        if n >= 4 or found:
+            break
+    return found
+
+
 def run_unit(name, tier, seed):
     red = hist.reduced_alphabet(name)
     full = lib.content_model(name).names
@@ -97,10 +127,18 @@ def run_unit(name, tier, seed):
                    budget=2000 if tier == 'quick' else 25000, alphabet=A),
               dict(kinds=['REMOVE', 'ADD', 'DOTSET', 'DOTVAL', 'DOTNONE'], D=3, budget=3000 if tier == 'quick' else 20000, alphabet=A,
                    prefixes=prefixes(name, tier))]
-    return f1.multi(name, passes, judge, judge_concrete)
+    r = f1.multi(name, passes, judge, judge_concrete)
+    for kind, detail in attribute_reads(name):
+        r['cands'].append(dict(cls=name, kind=kind, witness=dict(attribute_read=detail.split(':')[0]), detail=detail))
+    return r
 
 
 def replay(c):
+    if 'attribute_read' in c['witness']:
+        for k, d in attribute_reads(c['cls']):
+            if k == c['kind'] and d.split(':')[0] == c['witness']['attribute_read']:
+                return True, d
+        return False, 'attribute reads return the stored values'
     if c['kind'] == 'hang':
         return (True, 'exceeded 30 s again') if hist.hangs(c['cls'], c['witness']['ops']) else (False, 'finished within the limit')
     for k, d in judge_concrete(c['cls'], c['witness']['ops'], c['witness']):
